@@ -8,6 +8,7 @@ import (
 	"crypto/x509"
 	"encoding/pem"
 	"errors"
+	"filippo.io/age/internal/format"
 	"fmt"
 
 	"filippo.io/age"
@@ -95,7 +96,15 @@ func checkC19(c *Ctx) {
 			"toBA":       {sB, sA},
 			"none":       {greaseStanza(c.rng), otherType},
 		}
+		// a well-formed stanza of the OTHER ssh type that carries A's tag: not addressed to A
+		if fam == "ed25519" {
+			files["other-type-same-tag"] = []*age.Stanza{{Type: "ssh-rsa", Args: []string{sA.Args[0]}, Body: c.rng.bytes(256)}}
+		} else {
+			files["other-type-same-tag"] = []*age.Stanza{{Type: "ssh-ed25519", Args: []string{sA.Args[0], format.EncodeToString(c.rng.bytes(32))}, Body: c.rng.bytes(32)}}
+		}
+		files["other-type-same-tag-then-B"] = append(append([]*age.Stanza{}, files["other-type-same-tag"]...), sB)
 		fnames := []string{"toA", "toB", "toC", "toA-last", "toA-middle", "toAB", "toBA", "none"}
+		freshNames := append(append([]string{}, fnames...), "other-type-same-tag", "other-type-same-tag-then-B")
 		answers := []string{"right", "wrong", "fail"}
 		for _, pemOf := range []*sshKeyMat{A, B} {
 			mkIdentity := func(count *int, answer *string) *agessh.EncryptedSSHIdentity {
@@ -125,7 +134,7 @@ func checkC19(c *Ctx) {
 			}
 			// fresh answers with the right passphrase (for the history-freedom oracle)
 			freshRight := map[string]string{}
-			for _, f := range fnames {
+			for _, f := range freshNames {
 				cnt, ans := 0, "right"
 				k, err := mkIdentity(&cnt, &ans).Unwrap(files[f])
 				freshRight[f] = unwrapClass(k, err)
